@@ -37,6 +37,10 @@ func main() {
 		switch os.Args[2] {
 		case "c02":
 			genC02(g, n, os.Stdout)
+		case "cli":
+			genCli(g, n, os.Stdout)
+		case "c03":
+			genC03(g, n, os.Stdout)
 		case "hist":
 			genHist(g, n, os.Stdout)
 		case "fuzz":
